@@ -6,7 +6,7 @@
 (* action is the caller's contract; the result predicate is the promise.   *)
 (* Properties C01, C06, C07, C12, C13 are statements about this module.    *)
 (***************************************************************************)
-EXTENDS Integers, Sequences, FiniteSets, FiniteSetsExt      \* FiniteSetsExt: linear-time Max / Min of a set
+EXTENDS Integers, Sequences, FiniteSets, FiniteSetsExt, SequencesExt   \* FiniteSetsExt: linear-time Max / Min of a set; SequencesExt: SetToSortSeq
 
 VARIABLES ents,      \* set of [k, e, v]: key, expiration, value
           now        \* last time supplied since the last clear
@@ -15,8 +15,9 @@ NoVal == -999999     \* "None"
 
 LiveAt(S, t) == {x \in S : x.e > t}            \* strict: visible at t iff e > t
 \* the entry with the greatest / least key (live keys are distinct, so it is unique where it matters)
-MaxKey(S) == LET mk == Max({x.k : x \in S}) IN CHOOSE x \in S : x.k = mk
-MinKey(S) == LET mk == Min({x.k : x \in S}) IN CHOOSE x \in S : x.k = mk
+\* (FoldSet is linear under TLC; FiniteSetsExt's Max / Min are quadratic)
+MaxKey(S) == FoldSet(LAMBDA a, b : IF a.k > b.k THEN a ELSE b, CHOOSE x \in S : TRUE, S)
+MinKey(S) == FoldSet(LAMBDA a, b : IF a.k < b.k THEN a ELSE b, CHOOSE x \in S : TRUE, S)
 
 \* ---- contract ------------------------------------------------------------
 CanInsert(k, e, t) == t >= now /\ e >= t /\ ~\E x \in LiveAt(ents, t) : x.k = k
@@ -29,8 +30,8 @@ RefLE(t, p, d) == LET C == {x \in LiveAt(ents, t) : x.k <= p} IN IF C = {} THEN 
 RefBy(t, th, d) == LET C == {x \in LiveAt(ents, t) : 2 * x.k <= th} IN IF C = {} THEN d ELSE MaxKey(C).v
 RefGet(t, k)   == LET C == {x \in LiveAt(ents, t) : x.k = k} IN IF C = {} THEN NoVal ELSE MaxKey(C).v
 
-RECURSIVE SortByKey(_)
-SortByKey(S) == IF S = {} THEN <<>> ELSE LET m == MinKey(S) IN <<m.v>> \o SortByKey(S \ {m})
+\* the values of the live entries in increasing key order (live keys are distinct)
+SortByKey(S) == LET s == SetToSortSeq(S, LAMBDA a, b : a.k < b.k) IN [i \in 1..Len(s) |-> s[i].v]
 RefExport(t) == SortByKey(LiveAt(ents, t))
 
 \* only this much is promised about is_empty: a live entry => not empty
@@ -42,6 +43,12 @@ Init == ents = {} /\ now = 0
 Insert(k, e, v, t) == /\ CanInsert(k, e, t)
                       /\ ents' = ents \cup {[k |-> k, e |-> e, v |-> v]}
                       /\ now' = t
+\* a run of insertions of the keys lo..hi (value = key, one common expiration) at one time, in any order
+BulkSet(lo, hi, e)   == {[k |-> i, e |-> e, v |-> i] : i \in lo..hi}
+CanBulk(lo, hi, e, t) == t >= now /\ e >= t /\ ~\E x \in LiveAt(ents, t) : x.k >= lo /\ x.k <= hi
+BulkInsert(lo, hi, e, t) == /\ CanBulk(lo, hi, e, t)
+                            /\ ents' = ents \cup BulkSet(lo, hi, e)
+                            /\ now' = t
 Query(t)  == CanQuery(t) /\ now' = t /\ UNCHANGED ents        \* any of the four look-ups
 Clear     == ents' = {} /\ now' = 0                           \* the caller's clock may restart
 
